@@ -572,6 +572,19 @@ fn c11(src: &str) -> R {
                 return Err(format!("`*` at token {i} inside a statement was lexed as a comment"));
             }
         }
+        // quoted literals take their b/d/dt/n/t/x suffix (any case): a closed plain literal is never directly followed by one
+        if k.ty == T::StringLiteral && k.b1 - k.b0 >= 2 {
+            let txt = &src[k.b0..k.b1];
+            let q = txt.chars().next().unwrap_or(' ');
+            let unterminated = r.errors.iter().any(|e| e.error_kind() == ErrorKind::UnterminatedStringLiteral);
+            if (q == '\'' || q == '"') && txt.ends_with(q) && !unterminated {
+                if let Some(n) = src[k.b1..].chars().next() {
+                    if matches!(n.to_ascii_lowercase(), 'b' | 'd' | 'n' | 't' | 'x') {
+                        return Err(format!("string literal token {i} {txt:?} is directly followed by the suffix letter {n:?} that belongs to it"));
+                    }
+                }
+            }
+        }
         // a datalines word at statement start that is followed (after white space) by `;` starts a datalines block
         if k.ty == T::Identifier {
             let w = src[k.b0..k.b1].to_ascii_lowercase();
